@@ -77,6 +77,36 @@ pub fn register_cases(g: &mut Gen, nreg: usize) {
     }
 }
 
+/// a macro reached through other macros is registered again: the very same definition text, instantiated once
+/// more, is built from the new body (and the handle made before keeps its behaviour), at any depth of indirection
+pub fn redefinition_histories(g: &mut Gen) {
+    let data = super::probe_data(2);
+    for kind in ["default", "new", "plain"] {
+        for depth in 1..=3usize {
+            for (b1, b2) in [("addone", "addone | addone | addone"), ("helmert x=3", "helmert x=-4 y=1"), ("noop", "addone inv")] {
+                for top in ["m:l0", "m:l0 | addone", "addone | m:l0 inv | helmert z=2", "m:l0 | m:l0"] {
+                    let mut calls = vec![];
+                    // m:l0 -> m:l1 -> ... -> m:l<depth> = the body that changes
+                    for k in 0..depth {
+                        calls.push(format!("S|{}|{}", esc(&format!("m:l{k}")), esc(&format!("m:l{} | noop", k + 1))));
+                    }
+                    calls.push(format!("S|{}|{}", esc(&format!("m:l{depth}")), esc(b1)));
+                    calls.push(format!("O|{}", esc(top)));
+                    calls.push(format!("A|0|F|{data}"));
+                    calls.push(format!("S|{}|{}", esc(&format!("m:l{depth}")), esc(b2)));
+                    calls.push(format!("O|{}", esc(top)));
+                    calls.push(format!("A|1|F|{data}"));
+                    calls.push(format!("A|0|F|{data}"));
+                    calls.push(format!("A|1|I|{data}"));
+                    let line = format!("{}\t{}", kind, calls.join("\t"));
+                    g.push(format!("HIST\t{line}"), "hist-redefinition-through-macros", true);
+                    g.push(format!("S_C18\t{line}"), "oracle-hist-redefinition-through-macros", true);
+                }
+            }
+        }
+    }
+}
+
 pub fn generate(g: &mut Gen, thorough: bool) {
     let n = if thorough { 12000 } else { 1200 };
     let data = super::probe_data(2);
@@ -122,6 +152,9 @@ pub fn generate(g: &mut Gen, thorough: bool) {
         g.push(format!("S_C18T\t{}\t{}", crate::wire::escape(def), crate::wire::data_of(&set)), "oracle-threads", true);
     }
     register_cases(g, if thorough { 3000 } else { 400 });
+    redefinition_histories(g);
+    // a second data directory (the user's) behind ./geodesy
+    g.push("S_C18X".to_string(), "oracle-user-level-directory", true);
     // the grids behind the operators are shared by every context of the process: what they deliver for a point
     // does not depend on the points they served before (NTv2 hierarchies, children reaching the parent's border)
     super::grid::ntv2_cases(g, if thorough { 1500 } else { 150 }, 3);
